@@ -11,7 +11,7 @@ CLAIMED = {
                 "implementation: generated programs are written by this code and opened by redb 3.0.0 (from the offline registry) and the "
                 "reverse - clean and crash-left files - with identical contents, passing check_integrity, then continued by the other version "
                 "and read back by the first; every image also passes the Lean format checker.",
-        "note": NOTE + "; only release 3.0.0 and 4 KiB pages; type-name compatibility of composite user types is covered by C17's legacy cases",
+        "note": NOTE + "; only release 3.0.0 and 4 KiB pages; type-name compatibility of composite user types is covered by C17's legacy cases; one known finding (3.0.0 reports a repair on a completely full file written by this code; cause in 3.0.0; see known_findings.json / DESIGN 0.3 F5)",
         "technique": "Lean 4 proof (routing with shortened separators) + cross-version differential testing against redb 3.0.0",
         "category": "proof",
         "design_ref": "DESIGN.md §6 C19",
